@@ -34,7 +34,7 @@ func properties() map[string]*PropertySpec {
 			c01("H_C01_searchfilter", "search ok", "filter: present, or an attribute-value assertion (=, >=, <=, ~=) with a value of 1..2 arbitrary bytes; the expected text is go-ldap's DecompileFilter of that node (exact engine model for these shapes, cross-checked natively)", ""),
 			c01("H_C01_modify", "modify ok", "<= 1 change x <= 2 values, strings < 12 bytes, <= 1 control", ""),
 			c01("H_C01_modify_long", "modify ok", "one change x <= 1 value of up to 299 bytes (length octets in the short, 0x81 and 0x82 forms)", ""),
-			c01("H_C01_modify2", "modify ok", "<= 2 changes x <= 2 values, strings < 12 bytes", "thorough"),
+			c01("H_C01_modify2", "modify ok", "<= 2 changes x <= 2 values, strings < 12 bytes", ""),
 			c01("H_C01_add", "add ok", "<= 2 attributes x <= 2 values, <= 1 control", ""),
 			c01("H_C01_delete", "delete ok", "<= 1 control", "quick"),
 			c01("H_C01_delete2", "delete ok", "every ordered pair of the 12 control kinds", "thorough"),
@@ -57,6 +57,7 @@ func properties() map[string]*PropertySpec {
 			nat("H_C04_modify", "written", "every subset of 3 options, <= 2 setters", ""),
 			nat("H_C04_entry", "written", "<= 2 attributes x <= 2 values in the order added", ""),
 			nat("H_C04_two", "written", "two responses of 4 kinds each created from the same request, values set in interleaved order, both written", ""),
+			nat("H_C04_latecontrol", "written", "a paging control attached with SetControls and completed (cookie) before Write, on bind and search-done responses", ""),
 			nat("H_C04_lemma_int", "lemma", "every int64", ""),
 			nat("H_C04_lemma_len", "lemma", "every string shorter than 2^31 bytes", ""),
 		}})
@@ -67,6 +68,7 @@ func properties() map[string]*PropertySpec {
 			nat("H_C14_encode", "encoded", "12 control kinds, all field values, all five BER length classes", ""),
 			nat("H_C14_roundtrip", "roundtrip", "gldap encode -> wire -> gldap decode, 12 kinds", ""),
 			nat("H_C14_order", "order", "every ordered pair of kinds on one message", ""),
+			nat("H_C04_latecontrol", "written", "response direction: a paging control completed (cookie) after SetControls and before Write reaches the client as it is at Write", ""),
 			nat("H_C14_behera_ctor", "ctor", "every subset of {grace, expire, error}; error over all uint values", ""),
 			nat("H_C01_delete2", "delete ok", "request direction: reference client encoding of every ordered pair of kinds decoded by the real decoder", ""),
 		}})
@@ -77,6 +79,7 @@ func properties() map[string]*PropertySpec {
 			nat("H_C03_dispatch", "served", "<= 2 routes of 6 kinds with every criteria subset, 0..2 default-route registrations, unbind route or not, request of 6 kinds, scope any int64 on routes / 0..2 on requests", "quick"),
 			nat("H_C03_dispatch3", "served", "as quick with <= 3 routes", "thorough"),
 			nat("H_C03_pairing", "paired", "serveRequests with <= 3 requests: one serve call per request with its own (writer, request) pair", ""),
+			nat("H_C03_manyroutes", "many routes served", "16 routes with interleaved operations, four search routes matching by base DN plus a catch-all; request base a / b / c (sort.Slice is modelled as unstable: elements that compare equal may swap)", ""),
 			nat("H_C03_sequence", "sequence served", "two searches in a row on one connection against two search routes (optional base / scope criteria) and an optional default route", ""),
 		}})
 	add(&PropertySpec{ID: "C10",
@@ -157,7 +160,7 @@ func properties() map[string]*PropertySpec {
 		Functions: "(*Server).Run (accept loop), Run$1 and its deferred recover/teardown, (*conn).serveRequests, serveRequests$1 and its recover, (*Mux).serve, (*ResponseWriter).Write",
 		Outside:   []string{"one fault per scenario, one victim and one bystander connection", "a client that stops reading is covered under C11 (its handler blocks in Write)", "panics in gldap's own decoding are excluded by C02"},
 		Harnesses: []HarnessSpec{
-			eng("H_C07_faults", "faults", "10 fault kinds (handler panic on a request goroutine, in the StartTLS / unbind / default-route handler, connection reset, connection reset with a handler still running that answers only after the bystander was served, malformed frame, failed write, client not reading, temporary Accept error) x spawn-order schedules", ""),
+			eng("H_C07_faults", "faults", "11 fault kinds (a silent TLS peer that never starts its handshake, handler panic on a request goroutine, in the StartTLS / unbind / default-route handler, connection reset, connection reset with a handler still running that answers only after the bystander was served, malformed frame, failed write, client not reading, temporary Accept error) x spawn-order schedules", ""),
 		}})
 	add(&PropertySpec{ID: "C09",
 		Functions: "(*Server).Run (accept loop, connID/localConnID), Run$1, newConn, (*Request).ConnectionID, OnClose callback",
@@ -305,16 +308,13 @@ func properties() map[string]*PropertySpec {
 		}})
 	add(&PropertySpec{ID: "C02",
 		Functions: "(*conn).readRequest, (*conn).readPacket, newRequest, newMessage, (*packet).{basicValidation,requestPacket,requestType,requestMessageID,simpleBindParameters,searchParmeters,modifyParameters,addParameters,deleteParameters,extendedOperationName,controlPacket,assert,assertApplicationRequest}, decodeControl, decodeAttribute, NewControl*",
-		Outside:   []string{"byte-level framing (length octets, truncation, EOC, oversize): the asn1-ber reader's error outcome by contract (DESIGN §5.1)", "panics inside asn1-ber's reader and go-ldap's DecompileFilter (it recovers)", "universal REAL and GeneralizedTime payloads (opaque values)", "trees deeper than 5 below the envelope or wider than the stated widths"},
+		Outside:   []string{"byte-level framing (length octets, truncation, EOC, oversize): the asn1-ber reader's error outcome by contract (DESIGN §5.1)", "panics inside asn1-ber's reader and go-ldap's DecompileFilter (it recovers)", "universal REAL and GeneralizedTime payloads (opaque values)", "trees deeper than 5 below the envelope or wider than the stated widths", "more than one control per message in this check (controls are decoded one at a time by decodeControl; pairs of controls are decoded in C14's H_C01_delete2); a two-control exploration did not finish within 3.5 hours and is not registered"},
 		Harnesses: []HarnessSpec{
-			{Name: "H_C02_readRequest", Native: true, Tiers: "quick", Reach: []string{"returned", "decoded"},
+			{Name: "H_C02_readRequest", Native: true, Reach: []string{"returned", "decoded"},
 				Bound: "symbolic wire tree: depth <= 5, children: envelope <= 4, request <= 9, controls <= 1 x <= 4 children, lists <= 2-3; control value re-decoded as a symbolic tree of depth 3, width 2; every node's class/type/tag/content unconstrained",
 				Tweak: func(c *HarnessCfg, tier string) { c.DecodeWidths = "def=2" }},
 			{Name: "H_C02_truncated", Native: true, Reach: []string{"truncated"},
 				Bound: "a stream of 0..2 arbitrary bytes followed by EOF (not a complete element): read error, no panic; the bytes are visible to gldap through bufio.Reader.Peek"},
-			{Name: "H_C02_readRequest_2ctl", Native: true, Tiers: "thorough", Reach: []string{"returned", "decoded"},
-				Bound: "as quick, with <= 2 controls per message",
-				Tweak: func(c *HarnessCfg, tier string) { c.DecodeWidths = "def=2"; c.MaxPaths = 400000 }},
 			{Name: "H_C02_readRequest_w3", Native: true, Tiers: "thorough", Reach: []string{"returned", "decoded"},
 				Bound: "as quick, with control values re-decoded at width 3",
 				Tweak: func(c *HarnessCfg, tier string) { c.DecodeWidths = "def=3"; c.MaxPaths = 400000 }},
